@@ -31,7 +31,8 @@ Section ZipLoop.
   Definition body (rhs : list Z) (i : Z) (st : list Z * bool) : outcome (list Z * bool) :=
     let '(self, carry) := st in
     do t_2 <- idx self i ; do t_3 <- idx rhs i ;
-    let '(t_1, carry) := step t_2 t_3 carry in let self := upd self i t_1 in Val (self, carry).
+    let '(t_1, carry) := step t_2 t_3 carry in
+    do _ <- idx self i ; let self := upd self i t_1 in Val (self, carry).
 
   Lemma for_loop_zip a : forall b pre preb c,
     length a = length b -> length pre = length preb ->
@@ -42,7 +43,7 @@ Section ZipLoop.
     - destruct b; [|discriminate]. cbn [length for_loop zip_loop fst snd]. reflexivity.
     - destruct b as [|y b]; [discriminate|]. cbn [length for_loop zip_loop].
       unfold body at 1. rewrite idx_app_mid. cbn [obind]. rewrite Hp, idx_app_mid. cbn [obind].
-      destruct (step x y c) as [r c1] eqn:Es. rewrite <- Hp, upd_app_mid. cbn [obind].
+      destruct (step x y c) as [r c1] eqn:Es. cbv beta iota. rewrite <- Hp, upd_app_mid. cbn [obind].
       replace (pre ++ r :: a) with ((pre ++ [r]) ++ a) by (rewrite <- app_assoc; reflexivity).
       replace (preb ++ y :: b) with ((preb ++ [y]) ++ b) by (rewrite <- app_assoc; reflexivity).
       replace (Z.of_nat (length pre) + 1) with (Z.of_nat (length (pre ++ [r])))
